@@ -1,4 +1,4 @@
-import Rivaas.Lemmas.OpenAPIEval
+import Rivaas.Lemmas.OpenAPIWF
 /-
 C07 — property theorems (generated OpenAPI documents are valid, closed, complete and deterministic).
 -/
@@ -86,6 +86,163 @@ example :
          { method := s "GET", path := s "/user/:id", summary := [], description := [], opID := [], req := none, resps := [] }] with
      | .ok _ => false
      | .error e => e == .dupOp) = true := by decide
+
+/-! ### path parameters -/
+
+theorem lemma_lookup_map_snd {β γ : Type} (f : β → γ) : ∀ (l : List (B × β)) (k : B),
+    (l.map fun e => (e.1, f e.2)).lookup k = (l.lookup k).map f
+  | [], k => by simp [List.lookup]
+  | (k0, v0) :: rest, k => by
+    by_cases h : k = k0
+    · subst h; simp [lookup_cons_eq]
+    · simp only [List.map_cons]
+      rw [lookup_cons_ne _ _ _ _ h, lookup_cons_ne _ _ _ _ h, lemma_lookup_map_snd f rest k]
+
+theorem lemma_lookup_ne_none {β} : ∀ (l : List (B × β)) (k : B), k ∈ l.map (·.1) → l.lookup k ≠ none
+  | [], k, h => by simp at h
+  | (k0, v0) :: rest, k, h => by
+    by_cases hk : k = k0
+    · subst hk; simp [lookup_cons_eq]
+    · rw [lookup_cons_ne _ _ _ _ hk]
+      simp only [List.map_cons, List.mem_cons] at h
+      rcases h with h | h
+      · exact absurd h hk
+      · exact lemma_lookup_ne_none rest k h
+
+/-- **path_params_complete.** For every operation handed in whose route passed `ValidatePath` (the
+    constructors panic otherwise) and that is not overwritten by a later one with the same key and
+    method: the route's path with every `:name` written `{name}` is a key of `paths`; under it, the
+    operation has, for every `:name`, `{name}` as a segment of the key and exactly one parameter with
+    `in: path` and that name, and it is `required` — whether the request struct declares the parameter
+    (once or several times, in an embedded struct or not) or not. -/
+theorem path_params_complete (v : Version) (strict : Bool) (V : Option (Doc Schema → Bool)) (env : Env)
+    (ops : List OpIn) (d : Doc Schema) (henv : EnvNamed env) (hvalid : ∀ op ∈ ops, validatePath op.path = true)
+    (h : generate v strict V env ops = .ok d) : pathParamsOK ops d = true := by
+  obtain ⟨paths, comps, hb, hp⟩ := generate_ok h
+  obtain ⟨rfl, _⟩ := project_ok hp
+  obtain ⟨hknd, hkall, hitems⟩ := build_prov env ops paths comps hb
+  simp only [pathParamsOK, List.all_eq_true]
+  intro op0 hs
+  have hop0 : op0 ∈ ops := survives_sub ops op0 hs
+  have hkey : specPathKey op0.path ∈ paths.map (·.1) := by rw [← convertPath_eq_spec]; exact hkall op0 hop0
+  have hlk : (projDoc v paths comps).paths.lookup (specPathKey op0.path) =
+      (paths.lookup (specPathKey op0.path)).map fun item => sortByKey (item.map fun mo => (mo.1, mo.2.map (projSchema v))) := by
+    simp only [projDoc]
+    exact lemma_lookup_map_snd (fun item : PathItem IR => sortByKey (item.map fun mo => (mo.1, mo.2.map (projSchema v)))) paths _
+  rw [hlk]
+  cases hl : paths.lookup (specPathKey op0.path) with
+  | none => exact absurd hl (lemma_lookup_ne_none paths _ hkey)
+  | some item' =>
+    simp only [Option.map_some]
+    have hi : (specPathKey op0.path, item') ∈ paths := mem_of_lookup_some _ _ _ hl
+    cases hl2 : (sortByKey (item'.map fun mo => (mo.1, mo.2.map (projSchema v)))).lookup (specMember op0.method) with
+    | none => rfl
+    | some o'' =>
+      simp only []
+      have hm := mem_sortByKey.1 (mem_of_lookup_some _ _ _ hl2)
+      obtain ⟨mo, hmo, e⟩ := List.mem_map.1 hm
+      simp only [Prod.mk.injEq] at e
+      obtain ⟨e1, rfl⟩ := e
+      have ho : (specMember op0.method, mo.2) ∈ item' := by rw [← e1]; exact hmo
+      obtain ⟨st, so, st', so', hbo⟩ := build_prov_survivor env ops paths comps hb op0 hs item' hi mo.2 ho
+      have hshape := buildOperation_shape env henv op0 st so mo.2 st' so' (hvalid op0 hop0) hbo
+      exact opPathParamsOK_of_shape (hshape.map (projSchema v))
+
+/-- non-vacuity: `/n/:id/:k` gives two required path parameters -/
+example :
+    (match generate .v30 false none []
+        [{ method := s "GET", path := s "/n/:id/:k", summary := [], description := [], opID := [], req := none, resps := [] }] with
+     | .ok d => pathParamsOK [{ method := s "GET", path := s "/n/:id/:k", summary := [], description := [], opID := [], req := none, resps := [] }] d &&
+                d.operations.map (fun o => o.params.map (·.name)) == [[s "id", s "k"]]
+     | .error _ => false) = true := by decide
+
+/-! ### WF: the transcribed fragment of the meta-schemas (partial) -/
+
+/-- **wf_doc.** Every produced document satisfies `wfDoc` — the fragment of the 3.0 / 3.1 meta-schema
+    transcribed in Spec/OpenAPI.lean: the `openapi` pattern; path keys start with `/`; path item members
+    are operation members; parameters have a name, `in` ∈ {query, header, path, cookie}, `required: true`
+    when `in: path`, and are unique by (in, name) (uniqueItems — K07g); `responses` is not empty, its keys
+    match `[1-5](\d\d|XX)` (K07e), every response has a description; every Schema Object — in a
+    parameter, body, response or component, at any depth — carries only members the version admits, with
+    admissible values (`type` names, `required` non-empty without duplicates — K07d, `enum` non-empty,
+    `nullable`/boolean `exclusive…` only in 3.0, `type` arrays / numeric `exclusive…` / `examples` /
+    `contentEncoding` only in 3.1, non-negative integer `minLength`/`maxLength`).
+    This is *not* the whole meta-schema: see notes/C07.md; full validity is checked per case against
+    the repository's embedded meta-schema (differential evidence). -/
+theorem wf_doc (v : Version) (strict : Bool) (V : Option (Doc Schema → Bool)) (env : Env)
+    (ops : List OpIn) (d : Doc Schema) (henv : EnvNamed env) (hvalid : ∀ op ∈ ops, validatePath op.path = true)
+    (h : generate v strict V env ops = .ok d) : wfDoc v d = true := by
+  obtain ⟨paths, comps, hb, hp⟩ := generate_ok h
+  obtain ⟨rfl, _⟩ := project_ok hp
+  obtain ⟨hgood, hcomps, _⟩ := build_post env ops paths comps hb
+  obtain ⟨_, _, hitems⟩ := build_prov env ops paths comps hb
+  have hkeys := build_keys env ops paths comps hb
+  simp only [wfDoc, Bool.and_eq_true, List.all_eq_true]
+  refine ⟨⟨?_, ?_⟩, ?_⟩
+  · cases v <;> simp only [projDoc] <;> decide
+  · intro pi'' hpi''
+    simp only [projDoc, List.mem_map] at hpi''
+    obtain ⟨pi, hpi, rfl⟩ := hpi''
+    constructor
+    · obtain ⟨op, hop, e⟩ := hkeys pi.1 (List.mem_map.2 ⟨pi, hpi, rfl⟩)
+      simp only []
+      rw [← e]
+      exact validatePath_slash (hvalid op hop)
+    · intro mo'' hmo''
+      have hm := mem_sortByKey.1 hmo''
+      obtain ⟨mo, hmo, rfl⟩ := List.mem_map.1 hm
+      obtain ⟨_, hprov⟩ := hitems pi.1 pi.2 hpi
+      obtain ⟨pre, op, post, e, hmem, _, ⟨st, so, st', so', hbo⟩⟩ := hprov mo.1 mo.2 hmo
+      have hop : op ∈ ops := by
+        have : op ∈ ops.filter fun x => convertPath x.path = pi.1 := by rw [e]; simp
+        exact (List.mem_filter.1 this).1
+      have hshape := buildOperation_shape env henv op st so mo.2 st' so' (hvalid op hop) hbo
+      constructor
+      · have := (methodMember_some hmem).2
+        simp only [storedMembers, List.mem_cons, List.not_mem_nil, or_false] at this
+        simp only []
+        rcases this with h | h | h | h | h | h | h <;> rw [h] <;> decide
+      · apply wfOperation_of_shape v (hshape.map (projSchema v))
+        intro x hx
+        obtain ⟨y, hy, rfl⟩ := mem_schemas_map hx
+        exact wfSchema_proj v _ y (hgood pi hpi mo hmo y hy)
+  · intro ks' hks'
+    simp only [projDoc, List.mem_map] at hks'
+    obtain ⟨ks, hks, rfl⟩ := hks'
+    exact wfSchema_proj v _ ks.2 (hcomps ks hks).2
+
+/-! ### the whole oracle, and the validator -/
+
+/-- **generate_meets_spec.** `Generate` returns an error or a document on which the whole oracle
+    `docOK` holds (references closed, path parameters complete, operation ids unique, component names
+    well formed, WF) — for every type environment (recursive, generic, colliding names), every operation
+    set, both versions, strict on or off, and every validator. Hypotheses: the routes passed
+    `ValidatePath` (otherwise no operation exists: the constructors panic) and struct fields have names
+    (a fact about `reflect`). -/
+theorem generate_meets_spec (v : Version) (strict : Bool) (V : Option (Doc Schema → Bool)) (env : Env)
+    (ops : List OpIn) (d : Doc Schema) (henv : EnvNamed env) (hvalid : ∀ op ∈ ops, validatePath op.path = true)
+    (h : generate v strict V env ops = .ok d) : docOK v ops d = true := by
+  simp only [docOK, Bool.and_eq_true]
+  exact ⟨⟨⟨⟨refs_closed v strict V env ops d h, path_params_complete v strict V env ops d henv hvalid h⟩,
+    opids_unique_or_error v strict V env ops d h⟩, names_wellformed v strict V env ops d h⟩,
+    wf_doc v strict V env ops d henv hvalid h⟩
+
+/-- **validation_transparent.** Switching on the built-in validation never rejects a document the
+    validator accepts, and never changes it: with validation on the result is the document generated
+    with validation off when the validator accepts it, and the `validation` error otherwise. (The
+    validator is a parameter: the jsonschema library on the embedded meta-schema; that the real wiring
+    behaves like this model is what the correspondence run checks — K07a.) -/
+theorem validation_transparent (v : Version) (strict : Bool) (ok : Doc Schema → Bool) (env : Env) (ops : List OpIn) :
+    generate v strict (some ok) env ops =
+      match generate v strict none env ops with
+      | .ok d => if ok d then .ok d else .error .validation
+      | .error e => .error e := by
+  unfold generate
+  cases build env ops with
+  | error e => rfl
+  | ok r =>
+    simp only []
+    cases project v r.1 r.2 <;> rfl
 
 /-! ### determinism: map iteration order (K07h) -/
 
